@@ -494,6 +494,7 @@ func checkC16(c *core.Ctx) {
 		c.NotExhaustive(fmt.Sprintf("only %d of %d seeds were swept", doneSingle, nSingle))
 	}
 	c16IllTyped(c, fc, sc)
+	c16TypeGraphs(c, fc, sc)
 	c16Faults(c, fc, sc)
 	c16ArgShapes(c, fc, sc)
 }
@@ -633,6 +634,135 @@ func c16IllTyped(c *core.Ctx, fc string, sc *impl.Scratch) {
 			}
 		}
 	}
+}
+
+
+// c16TypeGraphs: type declarations whose reference graph is large or cyclic.  fc's passes walk from a type into
+// the types of its fields / payloads; a walk that re-enters a type at every occurrence is exponential in the
+// depth of a chain in which each type mentions the next one twice, and endless on a cycle.  Enumerated:
+// node kind (record, union, generic record, alternating record/union) x occurrences of the next type per node
+// (1..3, as fields, tuple components or slice elements) x depth (4..48; thorough ..128) x closure (a leaf, the
+// chain's own head = a cycle through an `and` group, a self-reference of the last node through a slice) x a
+// user (a function that takes the head / builds nothing).  Every input must end as ok or rejected in time.
+func c16TypeGraphs(c *core.Ctx, fc string, sc *impl.Scratch) {
+	depths := []int{4, 8, 16, 24, 32, 48}
+	if c.Thorough() {
+		depths = append(depths, 64, 96, 128)
+	}
+	kinds := []string{"record", "union", "generic-record", "alternating"}
+	closures := []string{"leaf", "self-through-slice", "cycle-and-group"}
+	type job struct{ name, src string }
+	var jobsList []job
+	for _, kind := range kinds {
+		for mult := 1; mult <= 3; mult++ {
+			for _, n := range depths {
+				for _, cl := range closures {
+					var decls []string
+					ref := func(i int) string {
+						if i > n {
+							return "int"
+						}
+						if kind == "generic-record" {
+							return fmt.Sprintf("Tn%d<int>", i)
+						}
+						return fmt.Sprintf("Tn%d", i)
+					}
+					node := func(i int, next string) string {
+						isRec := kind == "record" || kind == "generic-record" || (kind == "alternating" && i%2 == 0)
+						name := fmt.Sprintf("Tn%d", i)
+						if kind == "generic-record" {
+							name += "<T>"
+						}
+						if isRec {
+							var fs []string
+							for j := 0; j < mult; j++ {
+								ft := next
+								if j == 1 {
+									ft = "[]" + next
+								}
+								fs = append(fs, fmt.Sprintf("F%d_%d: %s", i, j, ft))
+							}
+							if kind == "generic-record" {
+								fs = append(fs, fmt.Sprintf("G%d: T", i))
+							}
+							return name + " = {" + strings.Join(fs, "; ") + "}"
+						}
+						var parts []string
+						for j := 0; j < mult; j++ {
+							parts = append(parts, next)
+						}
+						return fmt.Sprintf("%s =\n  | Cn%d of %s\n  | Dn%d", name, i, strings.Join(parts, "*"), i)
+					}
+					switch cl {
+					case "leaf":
+						// dependency order: the last node first
+						for i := n; i >= 0; i-- {
+							decls = append(decls, "type "+node(i, ref(i+1))+"\n")
+						}
+					case "self-through-slice":
+						for i := n; i >= 0; i-- {
+							nx := ref(i + 1)
+							if i == n {
+								nx = "[]" + ref(n)
+							}
+							decls = append(decls, "type "+node(i, nx)+"\n")
+						}
+					case "cycle-and-group":
+						// one `type ... and ...` group in which the last node refers back to the head
+						var g []string
+						for i := 0; i <= n; i++ {
+							nx := ref(i + 1)
+							if i == n {
+								nx = "[]" + ref(0)
+							}
+							g = append(g, node(i, nx))
+						}
+						decls = append(decls, "type "+strings.Join(g, "\nand ")+"\n")
+					}
+					user := "let use0 (x:" + ref(0) + ") =\n  1\n"
+					src := "package main\n\n" + strings.Join(decls, "\n") + "\n" + user
+					jobsList = append(jobsList, job{fmt.Sprintf("%s x%d depth %d %s", kind, mult, n, cl), src})
+				}
+			}
+		}
+	}
+	jobs := make(chan job, 64)
+	var wg sync.WaitGroup
+	for w := 0; w < c.Workers; w++ {
+		wg.Add(1)
+		go func() {
+			defer wg.Done()
+			d := sc.TempDir("c16g_")
+			defer os.RemoveAll(d)
+			for j := range jobs {
+				if c.TooManyViolations() || c.Expired() {
+					continue
+				}
+				os.WriteFile(filepath.Join(d, "t.fo"), []byte(j.src), 0o644)
+				r, o := c16Run(fc, d, []string{"t.fo"}, []string{"gen_t.go"})
+				c.Count(1, 1, 1, 1)
+				c.Outcome(o.class)
+				c.Hist("outcome_counts", o.class, 1)
+				c.Hist("by_operator", "type-graph", 1)
+				c.DistinctNT(j.src, true)
+				if o.class == "ok" || o.class == "rejected" {
+					continue
+				}
+				sig := c16Sig(o, j.src)
+				if o.class == "hang" {
+					sig = "C16:hang:type-graph:" + strings.Fields(j.name)[0]
+				}
+				c.Violation(sig, fmt.Sprintf("fc on a type graph (%s): %s %s", j.name, o.class, o.detail),
+					map[string]any{"kind": "type-graph", "foi": false, "input": map[string]string{"t.fo": j.src}, "expected": "ok or rejected", "observed": o.class + " " + o.detail + " exit=" + fmt.Sprint(r.Exit) + " " + trunc(r.Out(), 1500)})
+			}
+		}()
+	}
+	for _, j := range jobsList {
+		jobs <- j
+	}
+	close(jobs)
+	wg.Wait()
+	c.Set("type_graphs", len(jobsList))
 }
 
 // ---- output-path and input faults ----
